@@ -9,10 +9,12 @@ CONSTANTS
   LookupsCap = 0
   FailKeep = FALSE
   RegionMemo = FALSE
+  NegCache = FALSE
+  SubMRU = FALSE
   MaxDepth = 5
   MaxDepthDmg = 4
   MaxDepthCollide = 4
-  Families = {"intact", "dmg", "collide", "img", "fill", "scopes", "var"}
+  Families = {"intact", "dmg", "collide", "img", "fill", "scopes", "var", "strike", "pairs"}
   ImgCounts = {2, 3, 4}
   ImgFilterMode = "own"
   MaxImgFilters = 3
@@ -22,6 +24,8 @@ CONSTANTS
   MaxDepthVar = 3
   VarTuples = {"t0", "tA", "tB", "tC", "tD"}
   MaxDepthScopes = 3
+  MaxDepthStrike = 3
+  MaxDepthPairs = 3
 SPECIFICATION Spec
 VIEW View
 INVARIANTS ModelExact EmitCase
